@@ -126,7 +126,7 @@ def run_one(case, variant):
                     obs, _ = env.reset(seed=op[1]) if op[1] is not None else env.reset()
                     cur = {"start": ["reset", op[1]], "first_obs": canon(obs), "steps": []}
                     out["episodes"].append(cur)
-                    if variant.get("state_digest"):
+                    if (variant.get("state_digest") or case.get("state_digest")):
                         cur["state0"] = hashlib.sha1(json.dumps(canon(simutil.norm_state(env.game.simulation.describe_state())), sort_keys=True).encode()).hexdigest()
                     if variant.get("state_full0"):
                         cur["state_full0"] = canon(simutil.norm_state(env.game.simulation.describe_state()))
@@ -137,7 +137,7 @@ def run_one(case, variant):
                     a = envdrive.resolve_action(op, env.action_space.n, meta)
                     obs, reward, term, trunc, info = env.step(a)
                     dg = step_digest(obs, reward, env.game, simutil.norm_state)
-                    if variant.get("state_digest"):
+                    if (variant.get("state_digest") or case.get("state_digest")):
                         dg["state"] = hashlib.sha1(json.dumps(canon(simutil.norm_state(env.game.simulation.describe_state())), sort_keys=True).encode()).hexdigest()
                     cur["steps"].append(dg)
             env.close()
